@@ -27,15 +27,33 @@ def run(ck):
     ck.clause("C10.1", "no cross-query state (persistent worker state, shared-input mutation, run-time module/class writes)")
     ck.clause("C10.2", "original query / maps are looked up by molecule id")
     ck.clause("C10.3", "id filters wired to the right file and column; filter precedes grouping")
-    ck.clause("C10.4", "label rows are sorted and molecules grouped by id while reading")
+    ck.clause("C10.4", "label rows are sorted and molecules grouped by id while reading; result rows are grouped by id after sorting by it")
     persistent_state(ck, "C10.1")
     shared_inputs(ck, "C10.1")
     module_state(ck)
     lookups(ck)
     id_filters(ck, "C10.3", "C10.4")
+    from .c05 import groupby_inputs_sorted
+    n_g = groupby_inputs_sorted(ck, "C10.4", only_functions={"AlignmentResults.resolve",
+                                                              "AlignmentResults.filterOutSubsequentAlignmentsForSingleQuery"})
+    ck.floor("C10.4 groupby sites of the row grouping functions", n_g, 2)
 
 
 # ---------------------------------------------------------------------------------------------------------- C10.1
+def _is_module_level(f, name: str) -> bool:
+    if name not in f.module.assigns:
+        return False
+    g = f
+    while g is not None:
+        if any(pp.name == name for pp in g.params):
+            return False
+        for x in ast.walk(g.node):
+            if isinstance(x, ast.Name) and x.id == name and isinstance(x.ctx, ast.Store):
+                return False
+        g = g.parent
+    return True
+
+
 def module_state(ck):
     ctx = ck.ctx
     p = ctx.p
@@ -55,6 +73,23 @@ def module_state(ck):
                 ck.violation("C10.1", short(f) + ":store:" + ast.unparse(attr), where(f, stmt),
                              "class-level / module-level attribute written at run time: shared by every query handled later",
                              found=ast.unparse(stmt)[:120], required="no run-time write to shared objects")
+        for node in ast.walk(f.node):
+            tgts = []
+            if isinstance(node, ast.Assign):
+                tgts = node.targets
+            elif isinstance(node, (ast.AugAssign, ast.AnnAssign)):
+                tgts = [node.target]
+            elif isinstance(node, ast.Delete):
+                tgts = node.targets
+            elif isinstance(node, ast.NamedExpr):
+                tgts = [node.target]
+            for tg in tgts:
+                for t in ast.walk(tg):
+                    if isinstance(t, ast.Subscript) and isinstance(t.value, ast.Name) and _is_module_level(f, t.value.id):
+                        ck.violation("C10.1", short(f) + ":module-store:" + t.value.id, where(f, node),
+                                     f"module-level object `{t.value.id}` is written at run time: it survives from one query to the "
+                                     f"next inside a worker process (and is not shared between processes)",
+                                     found=ast.unparse(node)[:140], required="no run-time write to module-level objects")
         for c in E.iter_calls(f):
             if isinstance(c.func, ast.Attribute) and c.func.attr in E.MUTATORS and isinstance(c.func.value, ast.Name):
                 name = c.func.value.id
@@ -132,6 +167,37 @@ def _is_direct_selection(t0, source):
     return False
 
 
+def pair_parser_lookups(ck, rule):
+    ctx = ck.ctx
+    p = ctx.p
+    # pair parsers
+    for cname in ("XmapAlignmentPairWithDistanceParser", "SimulationAlignmentPairWithDistanceParser"):
+        m = p.find_method(cname, "parse")
+        n = 0
+        seen = set()
+        for pa in explore(ck, m, unroll=(0, 1)):
+            for e in pa.events:
+                if e.kind != "assign" or not isinstance(e.node, ast.Assign) or id(e.node) in seen:
+                    continue
+                for src, idname in ((self_attr("references"), "referenceId"), (self_attr("queries"), "queryId")):
+                    if _is_direct_selection(e.term, src):
+                        seen.add(id(e.node))
+                        r = _selection_by_id(ctx, e.term, src, "moleculeId", V(idname))
+                        n += 1
+                        w = where(m, e.node)
+                        if r == "ok":
+                            ck.ok(rule, f"{cname}.parse:{idname}", w, f"map looked up by moleculeId == {idname}")
+                        elif r is None:
+                            raise AnalysisError(f"{w}: map lookup idiom not recognised: {T.show(e.term)[:160]}")
+                        else:
+                            ck.violation(rule, f"{cname}.parse:{idname}", w, "map is not looked up by the matching molecule id",
+                                         found=r if r != "by-position" else T.show(e.term)[:120],
+                                         required=f"moleculeId == {idname}")
+        ck.floor(f"{rule} map lookups in {cname}.parse", n, 2)
+
+
+
+
 def lookups(ck):
     ctx = ck.ctx
     p = ctx.p
@@ -163,30 +229,7 @@ def lookups(ck):
                 else:
                     raise AnalysisError(f"{w}: how the original query is found is not recognised: {T.show(e.term)[:160]}")
     ck.floor("C10.2 original-query lookups in getUnalignedFragments", judged, 1)
-    # pair parsers
-    for cname in ("XmapAlignmentPairWithDistanceParser", "SimulationAlignmentPairWithDistanceParser"):
-        m = p.find_method(cname, "parse")
-        n = 0
-        seen = set()
-        for pa in explore(ck, m, unroll=(0, 1)):
-            for e in pa.events:
-                if e.kind != "assign" or not isinstance(e.node, ast.Assign) or id(e.node) in seen:
-                    continue
-                for src, idname in ((self_attr("references"), "referenceId"), (self_attr("queries"), "queryId")):
-                    if _is_direct_selection(e.term, src):
-                        seen.add(id(e.node))
-                        r = _selection_by_id(ctx, e.term, src, "moleculeId", V(idname))
-                        n += 1
-                        w = where(m, e.node)
-                        if r == "ok":
-                            ck.ok("C10.2", f"{cname}.parse:{idname}", w, f"map looked up by moleculeId == {idname}")
-                        elif r is None:
-                            raise AnalysisError(f"{w}: map lookup idiom not recognised: {T.show(e.term)[:160]}")
-                        else:
-                            ck.violation("C10.2", f"{cname}.parse:{idname}", w, "map is not looked up by the matching molecule id",
-                                         found=r if r != "by-position" else T.show(e.term)[:120],
-                                         required=f"moleculeId == {idname}")
-        ck.floor(f"C10.2 map lookups in {cname}.parse", n, 2)
+    pair_parser_lookups(ck, "C10.2")
 
 
 # ---------------------------------------------------------------------------------------------------------- C10.3/4
